@@ -138,6 +138,19 @@ def table_of(w, c):
     return rows, settings, nfiles
 
 
+def norm_events(log):
+    """the sequence of SQL statements / file operations the code issued (paths and parameters dropped): crash, fault and
+    interference points are event indices, so model and real stack must number events alike for replays to line up"""
+    out = []
+    for _, kind, d in log:
+        if kind == 'sql':
+            out.append(('sql', ' '.join(d.split())[:44]))
+        else:
+            parts = d.split(':')
+            out.append(('fs', ':'.join(parts[:2]) if parts[0] == 'open' else parts[0]))
+    return out
+
+
 def one(L, ops, settings, page):
     res = []
     for real in (False, True):
@@ -152,8 +165,10 @@ def one(L, ops, settings, page):
                 db.page_count = 1
             else:
                 w.page_count_fn = lambda: 1
+            w.start_events()
             out = apply(c, w, ops, clock)
-            res.append((out, table_of(w, c)))
+            w.stop_events()
+            res.append((out, table_of(w, c), norm_events(w.log)))
         finally:
             w.cleanup()
     return res
@@ -163,6 +178,7 @@ def run(L, seed=0, n=40, length=14):
     rnd = random.Random(seed)
     disagreements = []
     calls = 0
+    ev_mis, ev_total = [], 0
     for i in range(n):
         ops = gen_ops(rnd, length)
         settings = dict(eviction_policy=rnd.choice(['least-recently-stored', 'least-recently-used', 'least-frequently-used', 'none']),
@@ -170,12 +186,16 @@ def run(L, seed=0, n=40, length=14):
                         size_limit=rnd.choice([0, 5000, 2 ** 30]))
         page = rnd.choice([1, 2, 100])
         try:
-            (o1, t1), (o2, t2) = one(L, ops, settings, page)
+            (o1, t1, e1), (o2, t2, e2) = one(L, ops, settings, page)
         except Exception as e:
             import traceback
             disagreements.append({'case': i, 'error': '%s: %s' % (type(e).__name__, e), 'tb': traceback.format_exc()[-800:]})
             continue
         calls += len(ops)
+        ev_total += len(e2)
+        if e1 != e2:
+            j = next((q for q, (a, b) in enumerate(zip(e1, e2)) if a != b), min(len(e1), len(e2)))
+            ev_mis.append({'case': i, 'at': j, 'model': e1[max(0, j - 2):j + 3], 'real': e2[max(0, j - 2):j + 3], 'lens': (len(e1), len(e2))})
         if o1 != o2 or t1 != t2:
             first = next((j for j, (a, b) in enumerate(zip(o1, o2)) if a != b), None)
             disagreements.append({'case': i, 'settings': settings, 'page': page, 'first_differing_call': first,
@@ -183,7 +203,7 @@ def run(L, seed=0, n=40, length=14):
                                   'model': repr(o1[first]) if first is not None else repr(t1)[:600],
                                   'real': repr(o2[first]) if first is not None else repr(t2)[:600],
                                   'ops': repr(ops[:first + 1 if first is not None else None])[:1500]})
-    return {'sequences': n, 'api_calls_compared': calls, 'disagreements': disagreements}
+    return {'sequences': n, 'api_calls_compared': calls, 'disagreements': disagreements, 'event_sequence_mismatches': ev_mis, 'events_compared': ev_total}
 
 
 if __name__ == '__main__':
@@ -191,6 +211,8 @@ if __name__ == '__main__':
     from . import loader
     L = loader.load()
     r = run(L, seed=int(sys.argv[1]) if len(sys.argv) > 1 else 0, n=int(sys.argv[2]) if len(sys.argv) > 2 else 40)
-    print(r['sequences'], r['api_calls_compared'], len(r['disagreements']))
+    print(r['sequences'], r['api_calls_compared'], len(r['disagreements']), 'events', r['events_compared'], 'event mismatches', len(r['event_sequence_mismatches']))
+    for d in r['event_sequence_mismatches'][:8]:
+        print(d)
     for d in r['disagreements'][:5]:
         print(d)
